@@ -236,6 +236,17 @@ def configs(tier):
                         for a in A:
                             out.append({'cls': cls, 'center': list(c), 'inner_width': w, 'inner_height': h,
                                         'outer_width': w * fw, 'outer_height': h * fh, 'angle': a})
+    # concentric symmetric differences of two simple shapes of different classes: drawn as one patch with a hole
+    for c in C:
+        for a in A[:3]:
+            rect = {'cls': 'rectangle', 'center': list(c), 'width': 7.0, 'height': 4.0, 'angle': a}
+            ell = {'cls': 'ellipse', 'center': list(c), 'width': 3.0, 'height': 1.5, 'angle': a}
+            for big in (8.0, 2.5, 1.0):
+                circ = {'cls': 'circle', 'center': list(c), 'radius': big}
+                out.append({'cls': 'compound', 'op': 'xor', 'r1': rect, 'r2': circ})
+                out.append({'cls': 'compound', 'op': 'xor', 'r1': circ, 'r2': rect})
+            out.append({'cls': 'compound', 'op': 'xor', 'r1': ell, 'r2': rect})
+            out.append({'cls': 'compound', 'op': 'xor', 'r1': rect, 'r2': ell})
     for c in C:
         out.append({'cls': 'point', 'center': list(c)})
         for t in TEXTS:
@@ -395,6 +406,17 @@ def queries(spec, ndir):
     rx, ry = G.shape_frame_queries(geo, ndir)
     ref = G.Ref(geo)
     ins, sure = ref.member(rx, ry)
+    if geo['cls'] == 'compound':
+        keep = np.asarray(sure).copy()
+        both = np.ones(rx.shape, bool)
+        for o in (geo['r1'], geo['r2']):
+            i0, s0 = G.Ref(o).member(rx, ry)
+            i1, s1 = G.Ref(_scaled(o, 1.0 - BAND)).member(rx, ry)
+            i2, s2 = G.Ref(_scaled(o, 1.0 + BAND)).member(rx, ry)
+            keep &= s0 & s1 & s2 & (i1 == i0) & (i2 == i0)
+            both &= np.asarray(i0)
+        rx, ry, ins, both = rx[keep], ry[keep], np.asarray(ins)[keep], both[keep]
+        return rx, ry, ins, both & ~ins
     if geo['cls'] in ('polygon', 'regpoly'):
         keep = sure & (_edge_distance(ref.vx, ref.vy, rx, ry) > BAND * ref.size())
     else:
@@ -559,7 +581,7 @@ def check_outline(res, case, artist, spec, origin, Q):
                       f'{int(bad.sum())} of {int(ins.size)} query positions: patch membership (winding != 0) differs from the region; '
                       f'first: data ({float(dx[k])!r},{float(dy[k])!r}) = region ({float(rx[k])!r},{float(ry[k])!r}) - origin: winding {int(wn[k])}, region contains: {bool(ins[k])}',
                       bool(ins[k]), int(wn[k]))
-    if spec['cls'] in G.ANNULI:
+    if spec['cls'] in G.ANNULI or spec['cls'] == 'compound':
         if len(subs) != 2:
             ok = False
             res.violation(ID, 'annulus_outlines', case, f'annulus path has {len(subs)} subpaths, expected an outer and an inner outline',
@@ -707,11 +729,30 @@ def check_call(res, spec, origin, form, visname, vis, kwname, kw, ndir, Q=None):
     else:
         s = dict(spec)
         s['visual'] = vis
+        if cls == 'compound':
+            s['include'] = 'absent'       # the compound is handed its own (empty) meta and this visual
         try:
             reg = G.build_routed(s)       # every 4th spec (by hash) is reached by re-assignment
         except Exception as exc:
             res.violation(ID, 'build_failed', case, f'could not construct region: {type(exc).__name__}: {exc}')
             return
+
+        if cls == 'regpoly':
+            # a history: a defining parameter is re-assigned after construction.  The region's point set (contains, bounding
+            # box, masks) follows its vertices, which this does not touch -- so must the outline that is drawn
+            import zlib as _z
+            h = _z.crc32(repr((sorted(spec.items(), key=str), list(origin), visname, kwname, 'edit')).encode()) % 4
+            v0 = (np.array(reg.vertices.x, copy=True), np.array(reg.vertices.y, copy=True))
+            if h == 0:
+                reg.radius = reg.radius * 1.5
+            elif h == 1:
+                reg.center = type(reg.center)(reg.center.x + 2.0, reg.center.y - 1.0)
+            case['edited_after_construction'] = {0: 'radius', 1: 'center'}.get(h, 'no')
+            if not (np.array_equal(v0[0], reg.vertices.x) and np.array_equal(v0[1], reg.vertices.y)):
+                # an implementation that refreshes the vertices on assignment: the edited region is another region, outside
+                # this configuration -- check the unedited one
+                case['edited_after_construction'] = 'no (vertices follow assignments)'
+                reg = G.build_routed(s)
 
         def make(k):
             if form == 'plot':
